@@ -165,6 +165,9 @@ def run(chk, replay):
     # the command line layer (spec/Cli.tla): mandoline's options, also typed with the value zero
     from harness import cli
     cli.phase(chk, "mandoline")
+    # the working directory changes between flattenings of plotfiles typed under a relative name (PoolEnv.tla)
+    from harness import poolenv
+    poolenv.tool_phase(chk, "mandoline2d")
     # hierarchies whose levels refine by 4, or by different ratios from one jump to the next (Refine.tla): a level's cells are
     # Fac(l) = the PRODUCT of the ratios below it per level-0 cell
     from harness import refine
